@@ -499,7 +499,14 @@ func execDecApi(args []string) string {
 			if _, ok := dapiCtxOp(op); ok {
 				continue
 			}
-			k, err := strconv.Atoi(strings.TrimPrefix(op, "rst"))
+			spec := strings.TrimPrefix(op, "rst")
+			if i := strings.IndexByte(spec, '/'); i >= 0 {
+				if sz, err := strconv.Atoi(spec[i+1:]); err != nil || sz < 0 || sz > 1<<24 {
+					return "bad-op"
+				}
+				spec = spec[:i]
+			}
+			k, err := strconv.Atoi(spec)
 			if !strings.HasPrefix(op, "rst") || err != nil || k < 1 || k >= len(streams) {
 				return "bad-op"
 			}
@@ -628,10 +635,15 @@ func dapiOne(dec *decoder.Decoder, rd **bytes.Reader, op string, o dapiOpts, fac
 			return fmt.Sprintf("err:%s:%d", dapiErr(err), n), false
 		}
 		return fmt.Sprintf("ok:%d", n), false
-	default: // rst<k>
-		k, _ := strconv.Atoi(op[3:])
+	default: // rst<k> or rst<k>/<size>: Reset onto reader k with the line's options (and WithReadBufferSize(size))
+		spec, o2 := op[3:], o
+		if i := strings.IndexByte(spec, '/'); i >= 0 {
+			o2.rbs, _ = strconv.Atoi(spec[i+1:])
+			spec = spec[:i]
+		}
+		k, _ := strconv.Atoi(spec)
 		*rd = bytes.NewReader(streams[k])
-		dec.Reset(ctl.reader(*rd), o.options(fac, lis, ctl)...)
+		dec.Reset(ctl.reader(*rd), o2.options(fac, lis, ctl)...)
 		return "ok", false
 	}
 }
@@ -678,6 +690,58 @@ func dapiSeq(hdrSize int, hdrCRC bool, recs []byte) []byte {
 	c := crc16sum(recs)
 	out := append(h, recs...)
 	return append(out, byte(c), byte(c>>8))
+}
+
+// dapiSeqDS frames records as dapiSeq does but declares `ds` as the data size (the file CRC still covers all of recs: it
+// is what Decode computes when it reads every record to its end).
+func dapiSeqDS(hdrSize int, hdrCRC bool, recs []byte, ds int) []byte {
+	h := []byte{byte(hdrSize), 0x20, 0x9a, 0x52, byte(ds), byte(ds >> 8), byte(ds >> 16), byte(ds >> 24), '.', 'F', 'I', 'T'}
+	if hdrSize == 14 {
+		c := uint16(0)
+		if hdrCRC {
+			c = crc16sum(h)
+		}
+		h = append(h, byte(c), byte(c>>8))
+	}
+	c := crc16sum(recs)
+	out := append(h, recs...)
+	return append(out, byte(c), byte(c>>8))
+}
+
+// dapiOverrunSeq builds a sequence whose LAST record runs k >= 1 bytes past the data size its header declares (the
+// record starts inside the declared size, so the record loop of Decode enters it). The last record is a data record
+// with a byte-array payload, a definition record, or the file_id record itself (then PeekFileId overruns too).
+// Returns the sequence (header, all records, CRC over all records) and k; the protocol's end of the sequence is
+// len(seq) - k.
+func dapiOverrunSeq(rng *Rng, fileIdFirst bool) ([]byte, int) {
+	var recs []byte
+	if fileIdFirst {
+		recs = append(recs, dapiDefRec(3, 0, 0, []dapiFD{{0, 1, 0x00}}, nil)...)
+		recs = append(recs, 3, 4)
+	}
+	for i, n := 0, rng.Intn(3); i < n; i++ {
+		recs = append(recs, dapiDefRec(1, 0, 20, []dapiFD{{3, 1, 0x02}}, nil)...)
+		recs = append(recs, 1, byte(rng.Intn(256)))
+	}
+	var last []byte
+	switch rng.Intn(3) {
+	case 0:
+		m := rng.Range(1, 12)
+		recs = append(recs, dapiDefRec(2, 0, 20, []dapiFD{{byte(100 + rng.Intn(100)), byte(m), 0x0D}}, nil)...)
+		last = append([]byte{2}, rng.Bytes(m)...)
+	case 1:
+		last = dapiDefRec(4, 0, 20, []dapiFD{{3, 1, 0x02}, {4, 1, 0x02}}, nil)
+	default:
+		recs = append(recs, dapiDefRec(3, 0, 0, []dapiFD{{0, 1, 0x00}, {1, 2, 0x84}, {3, 4, 0x8C}}, nil)...)
+		last = []byte{3, 4, 1, 0, byte(1 + rng.Intn(200)), 9, 9, 9}
+	}
+	k := rng.Range(1, len(last)-1)
+	all := append(recs, last...)
+	hs := 14
+	if rng.Intn(3) == 0 {
+		hs = 12
+	}
+	return dapiSeqDS(hs, rng.Intn(4) != 0, all, len(all)-k), k
 }
 
 func crc16sum(b []byte) uint16 {
@@ -1056,6 +1120,9 @@ func dapiRandOps(rng *Rng, maxLen int, nreaders int) string {
 		default:
 			if nreaders > 0 {
 				ops[i] = fmt.Sprintf("rst%d", 1+rng.Intn(nreaders))
+				if rng.Intn(3) == 0 { // Reset with another read buffer size than the decoder had (the buffer is re-sliced or re-allocated)
+					ops[i] += fmt.Sprintf("/%d", []int{0, 1, 764, 765, 766, 1000, 1531, 4096, 4608, 5000, 9000, 70000}[rng.Intn(12)])
+				}
 			} else {
 				ops[i] = "dec"
 			}
@@ -1272,10 +1339,15 @@ func genDecApi(emit func(string), tier string, rng *Rng) {
 			}
 		}
 	}
-	// 8. the standard factory (expansion off): fixtures whole, mutated, chained; encoder outputs
+	// 8. the standard factory — with expansion on it is the decoder's DEFAULT configuration (sub-fields, scales, offsets,
+	// accumulation: the model side is the composition of the API model with C05's expansion model, Driver/DecApiStd.lean) —
+	// and with expansion off: fixtures whole, mutated, chained; encoder outputs
 	stdOpt := func() string {
 		o := dapiOptString(rng)
-		return strings.Replace(o, "exp1", "exp0", 1)
+		if rng.Intn(3) == 0 {
+			return strings.Replace(o, "exp1", "exp0", 1)
+		}
+		return strings.Replace(o, "exp0", "exp1", 1)
 	}
 	var small [][]byte
 	for _, p := range fixtureFiles() {
@@ -1330,6 +1402,14 @@ func genDecHist(emit func(string), tier string, rng *Rng) {
 	if tier == "thorough" {
 		scale = 20
 	}
+	// Reset onto reader 1, now and then with another read buffer size than the decoder had (the buffer is re-sliced when the
+	// old capacity suffices, re-allocated otherwise: sizes just above the previous one, below the minimum, far larger)
+	rst1 := func() string {
+		if rng.Intn(3) == 0 {
+			return fmt.Sprintf("rst1/%d", []int{0, 1, 764, 765, 766, 1000, 1531, 4096, 4097, 4608, 4861, 5000, 9000, 70000}[rng.Intn(14)])
+		}
+		return "rst1"
+	}
 	consume := []string{"dec", "decx", "dis", "pkh,dec", "pki,dec", "pki,dis", "pkh,dis", "nxt,dec", "nxt,pki,dis", "pki,pki,dec", "pkh,pki,dis", "decx:99", "pki,decx:99"}
 	for i := 0; i < 6000*scale; i++ {
 		opt, fac := dapiOptString(rng), dapiFacString(dapiRandFactory(rng))
@@ -1362,11 +1442,11 @@ func genDecHist(emit func(string), tier string, rng *Rng) {
 			if rng.Bool() {
 				ops = append(ops, []string{"pki", "pkh", "dec", "decc", "pki,decc"}[rng.Intn(5)])
 			}
-			ops = append(ops, "rst1")
+			ops = append(ops, rst1())
 		case 1: // failed decode on the first reader, then reset
 			bad := mutate(rng, dapiRandSeq(rng, 0, true))
 			streams = [][]byte{bad, s}
-			ops = []string{[]string{"dec", "pki", "pki,dec", "dis"}[rng.Intn(4)], "rst1"}
+			ops = []string{[]string{"dec", "pki", "pki,dec", "dis"}[rng.Intn(4)], rst1()}
 		}
 		last := []string{"dec", "decx", "pki,dec", "pkh,dec", "nxt,dec", "dec,dec"}[rng.Intn(6)]
 		if rng.Intn(6) == 0 { // S decoded under a context that is cancelled on the way (or too late)
@@ -1431,6 +1511,103 @@ func genDecHist(emit func(string), tier string, rng *Rng) {
 		for _, h := range []string{"pki,rst1,dec", "pki,dis,rst1,dec", "pki,decc,rst1,dec", "dec,rst1,dec", "pki,ci,rst1,dec"} {
 			emit(dapiLine("dechist", opt, fac, h, [][]byte{P, S}))
 			count(fmt.Sprintf("leak-probe-%d", kind))
+		}
+	}
+	// predecessors whose last record overruns the declared data size by k = 1..n bytes (KF-C07-4: Decode reads the whole
+	// record and then the CRC, Discard / CheckIntegrity skip the declared size, Discard after an overrunning PeekFileId
+	// skips two more bytes): every consuming operation x checksums on / off x S placed behind the whole predecessor (where
+	// Decode stops) or at the protocol's end of the predecessor (where Discard stops) x S decoded / peeked / discarded
+	for i := 0; i < 30*scale; i++ {
+		ov, k := dapiOverrunSeq(rng, rng.Intn(3) == 0)
+		sk := rng.Intn(4)
+		S := dapiRandSeq(rng, sk, rng.Intn(3) == 0)
+		fac := dapiFacString(dapiRandFactory(rng))
+		for _, c := range consume {
+			for chk := 0; chk < 2; chk++ {
+				opt := fmt.Sprintf("chk%d,exp%d,bo0,bc0,ml%d,dl%d,lw0,rbs0", chk, rng.Intn(2), rng.Intn(2), rng.Intn(2))
+				last := []string{"dec", "dec", "pki,dec", "dis,dec", "pkh,dec", "nxt,dec", "decx:1"}[rng.Intn(7)]
+				var stream []byte
+				if rng.Bool() {
+					stream = append(append([]byte(nil), ov...), S...)
+					count("overrun-S-behind-predecessor")
+				} else {
+					stream = append(append([]byte(nil), ov[:len(ov)-k]...), S...)
+					count("overrun-S-at-protocol-end")
+				}
+				ops := c + "," + last
+				switch rng.Intn(8) {
+				case 0: // a well-formed sequence first: the class starts at the overrunning one
+					stream = append(dapiRandSeq(rng, 0, true), stream...)
+					ops = consume[rng.Intn(len(consume))] + "," + ops
+				case 1: // an integrity check (+ re-seek) after the overrunning predecessor was consumed puts the decoder back at the start
+					ops = c + ",ci," + c + "," + last
+				}
+				emit(dapiLine("dechist", opt, fac, ops, [][]byte{stream}))
+				count(fmt.Sprintf("overrun-by-%d", min(k, 4)))
+			}
+		}
+	}
+	// THE DEFAULT CONFIGURATION (standard factory, component expansion on): chains of sequences whose records carry the
+	// profile's component fields — record.compressed_speed_distance (speed + distance, distance accumulates), speed →
+	// enhanced_speed, altitude → enhanced_altitude (scale 5, offset 500), cycles → total_cycles (accumulates),
+	// event.data with the sub-field selected by event.event (gear change: four components; others none), hr.event_timestamp_12
+	// — so that what expansion and the accumulator do is history dependent if anything of a predecessor survives
+	for i := 0; i < 60*scale; i++ {
+		mk := func(withFid bool) []byte {
+			var r []byte
+			if withFid {
+				r = append(r, dapiDefRec(0, 0, 0, []dapiFD{{0, 1, 0x00}, {1, 2, 0x84}}, nil)...)
+				r = append(r, 0, 4, 1, 0)
+			}
+			r = append(r, dapiDefRec(1, 0, 20, []dapiFD{{253, 4, 0x86}, {8, 3, 0x0D}, {6, 2, 0x84}, {2, 2, 0x84}, {18, 1, 0x02}}, nil)...)
+			r = append(r, dapiDefRec(2, 0, 21, []dapiFD{{253, 4, 0x86}, {0, 1, 0x00}, {3, 4, 0x86}}, nil)...)
+			r = append(r, dapiDefRec(3, 0, 132, []dapiFD{{9, 6, 0x0D}}, nil)...)
+			ts := 0x30000000 + uint32(rng.Intn(100000))
+			for k, n := 0, rng.Range(1, 6); k < n; k++ {
+				ts += uint32(rng.Intn(30))
+				switch rng.Intn(4) {
+				case 0, 1:
+					r = append(r, 1, byte(ts), byte(ts>>8), byte(ts>>16), byte(ts>>24))
+					r = append(r, rng.Bytes(3)...)
+					r = append(r, byte(rng.Intn(256)), byte(rng.Intn(40)), byte(rng.Intn(256)), byte(rng.Intn(30)), byte(rng.Intn(256)))
+				case 2:
+					ev := []byte{42, 43, 0, 3, 36, 255}[rng.Intn(6)]
+					r = append(r, 2, byte(ts), byte(ts>>8), byte(ts>>16), byte(ts>>24), ev)
+					r = append(r, rng.Bytes(4)...)
+				default:
+					r = append(r, 3)
+					r = append(r, rng.Bytes(6)...)
+				}
+			}
+			return dapiSeq(14, true, r)
+		}
+		p1, p2, s3 := mk(rng.Intn(4) != 0), mk(rng.Bool()), mk(rng.Bool())
+		opt := fmt.Sprintf("chk%d,exp1,bo%d,bc0,ml%d,dl%d,lw0,rbs0", rng.Intn(2), rng.Intn(6)/5, rng.Intn(2), rng.Intn(2))
+		chain := append(append(append([]byte(nil), p1...), p2...), s3...)
+		ops := consume[rng.Intn(len(consume))] + "," + consume[rng.Intn(len(consume))] + "," +
+			[]string{"dec", "pki,dec", "nxt,dec", "decx:2,dec", "pkh,dec", "ci,dec,dec,dec"}[rng.Intn(6)]
+		emit(dapiLine("dechist", opt, "std", ops, [][]byte{chain}))
+		count("default-configuration-components")
+		if rng.Intn(3) == 0 { // the last sequence on a new reader after a Reset
+			emit(dapiLine("dechist", opt, "std", consume[rng.Intn(len(consume))]+",pki,rst1,dec", [][]byte{append(append([]byte(nil), p1...), p2...), s3}))
+			count("default-configuration-components")
+		}
+	}
+	// CheckIntegrity after other calls on the same decoder (peeked header, peeked file id, Next, a consumed sequence), on
+	// chains cut at every offset: its verdict is C04's subject, but what it does to the decoder — and that a peek before it
+	// does not change what it finds — shows in the model correspondence and in the calls that follow the re-seek
+	for i := 0; i < 12*scale; i++ {
+		opt, fac := dapiOptString(rng), dapiFacString(dapiRandFactory(rng))
+		whole := append(dapiRandSeq(rng, 0, true), dapiRandSeq(rng, 0, rng.Bool())...)
+		step := 1
+		if len(whole) > 90 {
+			step = 1 + len(whole)/90
+		}
+		for cut := 0; cut <= len(whole); cut += step {
+			pre := []string{"pkh", "pki", "nxt", "pkh,pki", "nxt,pkh", "dec", "dis", "pki,dis", "dec,pkh", "dec,nxt", "dis,pki"}[rng.Intn(11)]
+			post := []string{"dec", "pkh", "pki,dec", "dec,dec", "nxt,dec"}[rng.Intn(5)]
+			emit(dapiLine("dechist", opt, fac, pre+",ci,"+post, [][]byte{whole[:cut]}))
+			count("peek-then-integrity-check-on-cut-chain")
 		}
 	}
 	// failing integrity check in the middle of a chain, then decoding from the start again
